@@ -94,18 +94,23 @@ def dummy_X(n, p):
     return pd.DataFrame(np.zeros((n, p)))
 
 
-def make_pelt(n, m, p=1, mode="c02"):
+def make_pelt(n, m, p=1, mode="c02", xdtype="float"):
     sigma = z3.Real("sigma")
     base = [sigma >= 0] + split_inequalities(n, m, p)
-    X = dummy_X(n, p)
-    info = dict(n=n, m=m, p=p)
+    X = dummy_X(n, p) if xdtype == "float" else dummy_X(n, p).astype("int64")
+    info = dict(n=n, m=m, p=p, xdtype=xdtype)
 
     def run(eng, acc):
         from skchange.change_detectors import PELT
         user_cost = TableCost(p=p)
-        det = PELT(user_cost, penalty_scale=SymReal(sigma), min_segment_length=m)
-        det.fit(X)
-        out = det.predict(X)
+        try:
+            det = PELT(user_cost, penalty_scale=SymReal(sigma), min_segment_length=m)
+            det.fit(X)
+            out = det.predict(X)
+        except Exception as ex:
+            # e.g. an integer work array allocated from the data's dtype cannot hold a cost
+            acc.concrete("runs_to_completion", False, dict(info, exception=f"{type(ex).__name__}: {ex}"[:200]), eng=eng)
+            return
         cpts = [int(c) for c in out["ilocs"]]
         scores = det.scores.values
         pen = rv(det.penalty_)
@@ -134,11 +139,11 @@ def make_pelt(n, m, p=1, mode="c02"):
     return Harness(run, base, name=f"pelt {info}")
 
 
-def _native(n, m, p, values, sigma):
+def _native(n, m, p, values, sigma, xdtype="float"):
     from skchange.change_detectors import PELT
     with proxy.native():
         det = PELT(TableCost(p=p, values=values), penalty_scale=float(sigma), min_segment_length=m)
-        X = dummy_X(n, p)
+        X = dummy_X(n, p) if xdtype == "float" else dummy_X(n, p).astype("int64")
         det.fit(X)
         out = det.predict(X)
         return [int(c) for c in out["ilocs"]], np.asarray(det.scores.values, dtype=float), float(det.penalty_)
@@ -182,6 +187,9 @@ def jobs(tier, mode="c02"):
     for (n, m, p) in grid:
         big = (m == 1 and n >= 5) or (m == 2 and n >= 7) or (m == 3 and n >= 9)
         out.append(Job(M, "make_pelt", dict(n=n, m=m, p=p, mode=mode), split=big))
+    # the same optimality claim when the data are integer typed (the cost values are still arbitrary reals)
+    out.append(Job(M, "make_pelt", dict(n=4, m=1, p=1, mode=mode, xdtype="int64")))
+    out.append(Job(M, "make_pelt", dict(n=5, m=2, p=1, mode=mode, xdtype="int64")))
     return out
 
 
@@ -228,7 +236,14 @@ def replay(cx):
         if not all(0 <= s and e <= n and e - s >= m for s, e in req):
             bad.append(f"cost evaluated on inadmissible cuts {[r for r in req if not (0 <= r[0] and r[1] <= n and r[1] - r[0] >= m)][:4]}")
         return dict(reproduced=bool(bad), key=key, what=f"PELT(min_segment_length={m}) on n={n}: {bad[:3]} [table {values}, scale {sigma}]")
-    cpts, scores, pen = _native(n, m, p, values, sigma)
+    if ob == "runs_to_completion":      # the symbolic run died before any data-dependent decision: any non-integral table will do
+        values = {f"co_{s_}_{e_}_{j}": 0.25 * ((3 * s_ + 5 * e_ + j) % 7) + 0.6 * (e_ - s_) ** 2 for s_ in range(n) for e_ in range(s_ + 1, n + 1) for j in range(p)}
+        sigma = 0.3
+    try:
+        cpts, scores, pen = _native(n, m, p, values, sigma, info.get("xdtype", "float"))
+    except Exception as ex:
+        return dict(reproduced=True, key=f"runs_to_completion|{info.get('xdtype')}", what=f"PELT on {info.get('xdtype')} data raised {type(ex).__name__}: {ex}")
+    scores = np.asarray(scores, dtype=float)
     tol = 1e-9
     bad = []
     for L in range(m, n + 1):
